@@ -140,6 +140,8 @@ class Gen:
     def x_attr(self, a):
         t = {'ID': 'xs:ID', 'IDREF': 'xs:IDREF'}.get(a['type']) or self.tref(a['type'])
         d = ' default="%s"' % a['default'] if 'default' in a else ''
+        if a.get('inheritable'):
+            d += ' inheritable="true"'           # XSD 1.1 only: see mark_inheritable()
         return '<xs:attribute name="%s" type="%s" use="%s"%s/>' % (a['name'], t, a['use'], d)
 
     def x_elem(self, e, occ=''):
@@ -287,6 +289,30 @@ def ser(n, tns_prefix='p', default_ns=False, _root=True, _indef=None, pretty=Fal
     return '<%s%s%s>%s</%s>' % (tag, decl, at, inner, tag)
 
 
+def mark_inheritable(gen, rnd, p=0.5):
+    """XSD 1.1: declare a random subset of the attributes of complex-content elements inheritable
+    (no type alternatives are generated, so the verdict of every instance stays the same)."""
+    count = 0
+
+    def walk(e):
+        nonlocal count
+        if 'model' in e:
+            for a in e.get('attrs', []):
+                if rnd.random() < p:
+                    a['inheritable'] = True
+                    count += 1
+
+            def grp(g):
+                for k in g['kids']:
+                    if k[0] == 'e':
+                        walk(k[1])
+                    else:
+                        grp(k[1])
+            grp(e['model'])
+    walk(gen.root)
+    return count
+
+
 def nodes(n, path=()):
     yield n, path
     for i, k in enumerate(n['kids']):
@@ -366,6 +392,14 @@ def applicable_faults(gen, tree):
     return out
 
 
+def pick_fault(rnd, faults):
+    """Stratified choice: a fault kind uniformly among the kinds present, then one fault of that kind
+    (rare kinds - identity / ID faults - are otherwise drowned by the per-node kinds)."""
+    kinds = sorted({f[0] for f in faults})
+    k = rnd.choice(kinds)
+    return rnd.choice([f for f in faults if f[0] == k])
+
+
 def apply_fault(tree, fault):
     """Returns a damaged deep copy; the damaged node is at fault[1] (or its parent for child faults)."""
     kind, path, detail = fault
@@ -399,7 +433,11 @@ def apply_fault(tree, fault):
     elif kind == 'dangling_idref':
         n['attrs']['xref'] = detail
     elif kind == 'dangling_default_idref':
+        old = n['attrs'].get('xid')
         n['attrs']['xid'] = 'other'        # id1 disappears: the defaulted ref/@dref dangles
+        for k in t['kids']:                # ... and is the only dangling reference (explicit optional ones go)
+            if k['name'] == 'ref' and k['attrs'].get('xref') == old:
+                del k['attrs']['xref']
     return t
 
 
